@@ -5,7 +5,7 @@
 (* custom actions, virtual keys, idle timers), is_idle and                 *)
 (* can_block_update_idle_waiting.  Same functional style as Layout.tla.    *)
 (***************************************************************************)
-EXTENDS Layout
+EXTENDS Layout, Overrides
 
 \* OS events: <<kind, arg>>  kind \in {"d","u","bd","bu","U","sc","mv","code"}
 Ev(k, a) == <<k, a>>
@@ -111,14 +111,35 @@ CustomReleaseAll(K, cs, pbtn) ==
 
 RevRelease(ce) == ce.k = "release" /\ \E i \in DOMAIN CuList(ce) : CuList(ce)[i].c = "revrel"
 
+\* global overrides, src: mod.rs:1086-1098 (override_keys, mark_overridden_nonmodkeys_for_eager_erasure,
+\* override_release_on_activation).  Opts.overrides = the parsed defoverrides table (Overrides.tla shape);
+\* the scratch OverrideStates is cleaned by every call, so it is not part of the state.
+\* returns [L, cur]
+ApplyOverrides(L, cur) ==
+  IF "overrides" \notin DOMAIN Opts \/ Opts.overrides = <<>> THEN [L |-> L, cur |-> cur]
+  ELSE LET o == OvrOverrideKeysSt(Opts.overrides, cur, OvrClean, "none")
+           gone == OvrRemovedNonMods(o.st)
+           \* src: key_override.rs:262-296: flags |= CLEAR_ON_NEXT_ACTION | CLEAR_ON_NEXT_RELEASE
+           mark(s) == IF s.t = "nk" /\ s.a \in gone
+                      THEN [s EXCEPT !.f = @ + (IF HasFlag(@, FlagClearOnNextAction) THEN 0 ELSE FlagClearOnNextAction)
+                                             + (IF HasFlag(@, FlagClearOnNextRelease) THEN 0 ELSE FlagClearOnNextRelease)]
+                      ELSE s
+           st1 == [i \in DOMAIN L.states |-> mark(L.states[i])]
+           \* src: mod.rs:1089-1098: release_state(KeyCode(removed)) drops NormalKey and FakeKey states of the key
+           st2 == IF Opts.override_release_on_activation
+                  THEN FilterSeq(st1, LAMBDA s : ~(s.t \in {"nk", "fk"} /\ s.a \in gone))
+                  ELSE st1
+       IN [L |-> [L EXCEPT !.states = st2], cur |-> o.keys]
+
 HandleKeystateChanges(K) ==
   LET r == TickL(K.L)
       ce == r.ce
-      cur == Keycodes(r.L)
+      ov == ApplyOverrides(r.L, Keycodes(r.L))
+      cur == ov.cur
       prevOrder == IF RevRelease(ce) THEN Reverse(K.prev) ELSE K.prev
       rel == ReleasesOut(prevOrder, cur)
       pr == PressesOut(cur, K.prev, <<>>, K.lpk)
-      K1 == [K EXCEPT !.L = r.L, !.out = rel \o pr.out, !.lpk = pr.lpk]
+      K1 == [K EXCEPT !.L = ov.L, !.out = rel \o pr.out, !.lpk = pr.lpk]
       K2 == CASE ce.k = "press" -> CustomPressAll(K1, CuList(ce), "")
               [] ce.k = "release" -> CustomReleaseAll(K1, CuList(ce), "")
               [] OTHER -> K1
